@@ -5,7 +5,7 @@ use crate::gen;
 use crate::oracle::{classify, Out};
 use crate::refenc::{self, W};
 use crate::rng::Rng;
-use crate::visit::{first_outside, Slices, veq};
+use crate::visit::{first_outside, Sl, Slices, veq};
 use serde_json::json;
 use tls_parser::*;
 
@@ -270,6 +270,68 @@ pub fn run(ctx: &mut Ctx) {
                 locality!(ctx, "parse_tls_plaintext", parse_tls_plaintext, d_record, &b, &x, tag);
                 locality!(ctx, "parse_tls_encrypted", parse_tls_encrypted, d_record, &b, &x, tag);
                 locality!(ctx, "parse_tls_raw_record", parse_tls_raw_record, d_record, &b, &x, tag);
+            }
+        }
+    });
+
+    // ------------------------------------------------ entry points that take the record header / length as a parameter
+    // (parse_tls_record_with_header, parse_tls_message_heartbeat, parse_dtls_record_with_header): the data
+    // slice may be longer than the header says. They are not self-delimiting, but the remainder is still a
+    // suffix of the input (it ends where the caller's buffer ends) and every slice lies inside the input
+    ctx.floor("hdr-param.ok", 5_000);
+    let n = ctx.tier.pick(24000, 240000);
+    ctx.family("header-parameter-parsers", n, |ctx, case: &mut Case| {
+        let r = &mut case.rng;
+        let ct = *r.pick(&[0x14u8, 0x15, 0x16, 0x17, 0x18, 0x18, 0x18]);
+        let msgs = gen::msg_list(r, gen::TINY, ct);
+        let payload = refenc::msgs_payload(&msgs);
+        let extra = match r.below(4) { 0 => vec![], 1 => vec![0], 2 => gen::opaque(r, 20), _ => refenc::msgs_payload(&gen::msg_list(r, gen::TINY, ct)) };
+        let mut input = payload.clone();
+        input.extend_from_slice(&extra);
+        let hl = *r.pick(&[payload.len(), payload.len(), input.len(), payload.len() + 1, 3, 0xffff]);
+        let hdr = TlsRecordHeader { record_type: TlsRecordType(ct), version: TlsVersion(0x0303), len: hl.min(65535) as u16 };
+        let base = input.as_ptr() as usize;
+        let end = base + input.len();
+        let mut judge = |ctx: &mut Ctx, name: &'static str, got: Option<(usize, usize, Vec<Sl>)>| {
+            ctx.eval();
+            if let Some((ra, rl, sl)) = got {
+                ctx.count("hdr-param.ok");
+                ctx.shape(&(name, ct, extra.len().min(3), rl.min(3)));
+                let outside = first_outside(&sl, base, input.len());
+                // the address of an EMPTY remainder is not judged (parsers may return a static empty slice)
+                let suffix = rl == 0 || ra + rl == end;
+                if !suffix || outside.is_some() {
+                    ctx.violation(
+                        format!("c06:{}:{}", name, if !suffix { "remainder-not-a-suffix-of-the-input" } else { "slice-outside-input" }),
+                        json!({"parser": name, "content_type": ct, "hdr_len": hl, "input_len": input.len(), "remainder_offset": ra.wrapping_sub(base), "remainder_len": rl, "input_hex": hex_short(&input)}),
+                    );
+                }
+            }
+        };
+        let g = ctx.guarded("parse_tls_record_with_header", &input, || {
+            parse_tls_record_with_header(&input, &hdr).ok().map(|(rem, v)| { let mut sl = Vec::new(); v.slices(&mut sl); (rem.as_ptr() as usize, rem.len(), sl) })
+        });
+        if let Some(g) = g {
+            judge(ctx, "parse_tls_record_with_header", g);
+        }
+        if ct == 0x18 {
+            let g = ctx.guarded("parse_tls_message_heartbeat", &input, || {
+                parse_tls_message_heartbeat(&input, hl.min(65535) as u16).ok().map(|(rem, v)| { let mut sl = Vec::new(); v.slices(&mut sl); (rem.as_ptr() as usize, rem.len(), sl) })
+            });
+            if let Some(g) = g {
+                judge(ctx, "parse_tls_message_heartbeat", g);
+            }
+        }
+        // the defragmenter's two entry points with the same hand-built record (unbuffered results point into the record)
+        for nocopy in [false, true] {
+            let mut p = TlsRecordsParser::default();
+            let g = ctx.guarded("TlsRecordsParser", &input, || {
+                let rec = TlsRawRecord { hdr: hdr.clone(), data: &input };
+                let r = if nocopy { p.parse_record_nocopy(rec) } else { p.parse_record(rec) };
+                r.ok().map(|(rem, v)| { let mut sl = Vec::new(); v.slices(&mut sl); (rem.as_ptr() as usize, rem.len(), sl) })
+            });
+            if let Some(g) = g {
+                judge(ctx, if nocopy { "parse_record_nocopy" } else { "parse_record (unbuffered)" }, g);
             }
         }
     });
